@@ -248,6 +248,16 @@ def optional_build(ctx, rel):
     return rc == 0, out[-800:]
 
 
+def replay(ctx, r):
+    rules, inp = r["rules"], r["input"]
+    ob = run_sets([(0, rules)])[(0, inp)]
+    j = judge(rules, inp, ob)
+    ctx.case(("replay", str(rules), inp), True)
+    if j is not None:
+        ctx.violation("cut(r(%s,O)) over the clauses %s: %s" % (inp or "X", " ".join(show_rules(rules)), j[1]),
+                      {"rules": rules, "input": inp, "program": show_rules(rules)}, klass=None if j[0] in ("?", None) else j[0])
+
+
 def run(ctx):
     ctx.cov["rule"] = ("generated rule sets r(Index, In, Out): 2-9 clauses, indices from 1..15 (sometimes repeated, sometimes clustered on "
                        "1,2,3,10,11,12), shuffled file order, head pattern a/b/variable, body fact / true condition / failing condition / "
@@ -270,15 +280,15 @@ def run(ctx):
         ctx.log("PropsFixed.v: obligations now %d/%d" % (ctx.cov["discharged"], ctx.cov["obligations"]))
 
     if ctx.replay:
-        r = ctx.replay.get("replay", ctx.replay)
-        rules, inp = r["rules"], r["input"]
-        ob = run_sets([(0, rules)])[(0, inp)]
-        j = judge(rules, inp, ob)
-        ctx.case(("replay",), True)
-        if j is not None:
-            ctx.violation("cut(r(%s,O)) over %s: %s" % (inp or "X", show_rules(rules), j[1]),
-                          {"rules": rules, "input": inp, "program": show_rules(rules)}, klass=None if j[0] == "?" else j[0])
+        replay(ctx, ctx.replay.get("replay", ctx.replay))
         return
+    cdir = os.path.join(vf.CORPUS, "C33")
+    for name in sorted(os.listdir(cdir)) if os.path.isdir(cdir) else []:
+        if name.endswith(".json"):
+            import json
+            with open(os.path.join(cdir, name)) as f:
+                replay(ctx, json.load(f))
+            ctx.count("corpus_replayed")
 
     nsets = ctx.n(200, 5000)
     sets = [(rid, gen_ruleset(ctx.rng, rid)) for rid in range(nsets)]
